@@ -13,12 +13,12 @@ import (
 // "Model precisely"); cty is used to build values, never to decide.
 type plan struct {
 	arityOK bool
-	E       []int          // null with AllowNull off, or non-dynamic type that does not conform
-	Dn      []int          // dynamically typed with AllowDynamicType off
-	U       []int          // unknown with AllowUnknown off
+	E       []int // null with AllowNull off, or non-dynamic type that does not conform
+	Dn      []int // dynamically typed with AllowDynamicType off
+	U       []int // unknown with AllowUnknown off
 	inE     map[int]bool
-	causeE  map[int]string // "null" | "conformance"
-	cbArgs  []cty.Value    // what both callbacks must receive
+	causeE  map[int]string  // "null" | "conformance"
+	cbArgs  []cty.Value     // what both callbacks must receive
 	M       map[string]bool // every mark (deep) of the arguments whose parameter is not AllowMarked
 	all     map[string]bool // every mark of every argument
 
